@@ -2,6 +2,7 @@ package props
 
 import (
 	"fmt"
+	"regexp"
 	"sort"
 	"strings"
 	"sync"
@@ -95,7 +96,23 @@ const c08prelude = "@G = global i32 0\ndeclare void @vf()\ndeclare void @vv(i32,
 // c08text emits the function in one of the forms: "explicit" (every number written as LLVM's rule
 // assigns it: the model), "implicit" (result numbers omitted), "implicit-labels" (numeric block
 // labels omitted as well).
+var (
+	reC08num   = regexp.MustCompile(`%(\d+)`)
+	reC08label = regexp.MustCompile(`(?m)^(\d+):`)
+)
+
+// c08text: form "explicit-zeros" is the explicit form with every number spelled with a leading
+// zero (%01, 02:), which LLVM reads as the same IDs.
 func c08text(s c08func, name, form string) string {
+	if form == "explicit-zeros" {
+		t := c08textPlain(s, name, "explicit")
+		t = reC08num.ReplaceAllString(t, "%0$1")
+		return reC08label.ReplaceAllString(t, "0$1:")
+	}
+	return c08textPlain(s, name, form)
+}
+
+func c08textPlain(s c08func, name, form string) string {
 	// pass 1: the independent model of LLVM's numbering rule.
 	n := 0
 	paramRef := make([]string, len(s.Params))
@@ -493,7 +510,7 @@ func funcsByName(canon []llcanon.Entity) map[string]string {
 }
 
 func c08funcBatch(c *fw.Check, shapes []c08func, base int) {
-	forms := []string{"explicit", "implicit", "implicit-labels"}
+	forms := []string{"explicit", "implicit", "implicit-labels", "explicit-zeros"}
 	texts := map[string]string{}
 	for _, form := range forms {
 		var b strings.Builder
